@@ -1,5 +1,6 @@
 import gfapy
 import re
+import math
 
 def unsafe_decode(string):
   try:
@@ -11,9 +12,10 @@ def decode(string):
   validate_encoded(string)
   return unsafe_decode(string)
 
-def validate_decoded(integer):
-  pass
-  # always valid
+def validate_decoded(obj):
+  if isinstance(obj, float) and not math.isfinite(obj):
+    raise gfapy.ValueError(
+      "{} cannot be represented in a GFA float field".format(obj))
 
 def validate_encoded(string):
   if not re.match(r"^[-+]?[0-9]*\.?[0-9]+([eE][-+]?[0-9]+)?$", string):
